@@ -3,9 +3,9 @@
 // queue/priq.PriQueue, recording one ndjson event per call (action, real reply, what the type's
 // accessors show afterwards) for validation by TLC (Queue_Trace.tla / PriQueue_Trace.tla).
 //
-// Only calls that the property says return are issued: a Pop goes out only when the count of
-// accepted-minus-handed-out items (taken from the REAL replies) is positive or the queue was
-// closed.  Every possibly blocking call nevertheless runs on a helper goroutine; if it does not come
+// Only calls that the property says return are issued: a Pop goes out only when the harness's own
+// count model of the property (qa.Model; never the implementation's answers) says the queue is
+// non-empty or closed.  Every possibly blocking call nevertheless runs on a helper goroutine; if it does not come
 // back and the Go runtime reports the goroutine parked in sync.Cond.Wait, the call is logged with
 // reply "blocked" (which the specification cannot explain) and the trace ends.
 package main
@@ -15,6 +15,7 @@ import (
 	"encoding/json"
 	"flag"
 	"fmt"
+	"math"
 	"math/rand"
 	"os"
 	"path/filepath"
@@ -89,13 +90,12 @@ func (h *helper) stop() { close(h.cmd) }
 
 // ---------------------------------------------------------------- execution
 type runner struct {
-	w      *tr.W
-	q      qa.Queue
-	kind   string
-	h      *helper
-	cnt    int  // accepted minus handed out, from the real replies
-	closed bool // a close (or successful try-close) was issued
-	dead   bool // a call blocked: the trace is over
+	w    *tr.W
+	q    qa.Queue
+	kind string
+	h    *helper
+	m    qa.Model // the harness's own count model of the property: decides what is issued
+	dead bool     // a call blocked: the trace is over
 }
 
 func (r *runner) step(a qa.Act) {
@@ -105,17 +105,12 @@ func (r *runner) step(a qa.Act) {
 	if r.kind == "priq" {
 		rep := qa.Safe(r.q, a)
 		r.w.Emit(tr.E{"ev": "call", "a": a.Rec(), "r": rep, "obs": r.q.Obs()})
-		if a.Op == "push" && rep["st"] == "ok" {
-			r.cnt++
-		}
-		if a.Op == "pop" && rep["st"] == "item" {
-			r.cnt--
-		}
+		r.m.Apply(a)
 		return
 	}
 	var rep tr.E
 	if a.Op == "pop" {
-		if r.cnt <= 0 && !r.closed {
+		if !r.m.PopReturns() {
 			return // would block by the property: not part of the sequential exploration
 		}
 		if r.h == nil {
@@ -134,34 +129,19 @@ func (r *runner) step(a qa.Act) {
 		rep = qa.Safe(r.q, a)
 	}
 	r.w.Emit(tr.E{"ev": "call", "a": a.Rec(), "r": rep, "obs": r.q.Obs()})
-	switch a.Op {
-	case "add":
-		if rep["st"] == "ok" && !r.closed {
-			r.cnt++
-		}
-	case "pop", "trypop":
-		if rep["st"] == "item" {
-			r.cnt--
-		}
-	case "close":
-		r.closed = true
-	case "tryclose":
-		if rep["st"] == "true" {
-			r.closed = true
-		}
-	}
+	r.m.Apply(a)
 }
 
 // drain: close, then take out whatever is left so that the content of every queue is compared.
 func (r *runner) drain(rng *rand.Rand) {
 	if r.kind == "priq" {
-		for i := r.cnt + 1; i >= 0 && !r.dead; i-- {
+		for i := r.m.Len() + 1; i >= 0 && !r.dead; i-- {
 			r.step(qa.Act{Op: "pop"})
 		}
 		r.step(qa.Act{Op: "len"})
 		return
 	}
-	if !r.closed {
+	if !r.m.Closed {
 		if r.kind == "mq" && rng.Intn(2) == 0 {
 			r.step(qa.Act{Op: "tryclose"})
 		}
@@ -170,7 +150,7 @@ func (r *runner) drain(rng *rand.Rand) {
 	if r.kind == "mq" {
 		r.step(qa.Act{Op: "tryclear"})
 	}
-	for i := r.cnt + 1; i >= 0 && !r.dead; i-- {
+	for i := r.m.Len() + 1; i >= 0 && !r.dead; i-- {
 		if r.kind == "syncq" && rng.Intn(2) == 0 {
 			r.step(qa.Act{Op: "trypop"})
 		} else {
@@ -187,9 +167,72 @@ func (r *runner) drain(rng *rand.Rand) {
 	}
 }
 
+// prioPool: the priorities of one priq trace, ascending; the trace logs ranks (index+1).  Extremes
+// and random 64-bit values: only their order matters, and a comparator must get it right over the
+// whole int range.
+func prioPool(rng *rand.Rand, n int) []int {
+	ext := []int{math.MinInt, math.MinInt + 1, -1, 0, 1, math.MaxInt - 1, math.MaxInt}
+	set := map[int]bool{}
+	switch rng.Intn(5) {
+	case 0: // small, like a user would
+		for len(set) < n {
+			set[rng.Intn(2*n+1)-n] = true
+		}
+	case 1: // extremes only
+		if n > len(ext) {
+			n = len(ext)
+		}
+		for len(set) < n {
+			set[ext[rng.Intn(len(ext))]] = true
+		}
+	case 2: // random 64-bit patterns
+		for len(set) < n {
+			set[int(rng.Uint64())] = true
+		}
+	default: // mixture
+		for len(set) < n {
+			switch rng.Intn(3) {
+			case 0:
+				set[ext[rng.Intn(len(ext))]] = true
+			case 1:
+				set[int(rng.Uint64())] = true
+			default:
+				set[rng.Intn(7)-3] = true
+			}
+		}
+	}
+	out := make([]int, 0, len(set))
+	for v := range set {
+		out = append(out, v)
+	}
+	sort.Ints(out)
+	return out
+}
+
 func runTrace(w *tr.W, rng *rand.Rand, src, kind string, ccap, rcap, rep int, plan []qa.Act) {
-	r := &runner{w: w, q: qa.New(kind, ccap, rcap, rep), kind: kind}
-	w.Emit(tr.E{"ev": "reset", "kind": kind, "ccap": ccap, "rcap": rcap, "src": src, "rep": rep})
+	r := &runner{w: w, kind: kind, m: qa.Model{Kind: kind, Ccap: ccap, Rcap: rcap}}
+	reset := tr.E{"ev": "reset", "kind": kind, "ccap": ccap, "rcap": rcap, "src": src, "rep": rep}
+	if kind == "priq" {
+		nr := 1
+		for _, a := range plan {
+			if a.Op == "push" && a.Pr > nr {
+				nr = a.Pr
+			}
+		}
+		pool := prioPool(rng, nr)
+		for len(pool) < nr { // fewer distinct extremes than ranks: fall back to a mixture
+			pool = prioPool(rng, nr)
+		}
+		r.q = qa.NewPri(rcap, pool)
+		limbs := make([][]int, len(pool))
+		for i, v := range pool {
+			limbs[i] = tr.Limbs(uint64(v))
+		}
+		reset["prios"] = limbs // documentation: rank i+1 = this 64-bit two's-complement pattern
+	} else {
+		r.q = qa.New(kind, ccap, rcap, rep)
+	}
+	w.Emit(reset)
 	for _, a := range plan {
 		r.step(a)
 	}
@@ -265,22 +308,14 @@ func randHistory(rng *rand.Rand, kind string, n int) []qa.Act {
 func randPriHistory(rng *rand.Rand, n int) []qa.Act {
 	var out []qa.Act
 	id := 0
-	prios := []int{1, 2, 3}
-	switch rng.Intn(4) {
-	case 0:
-		prios = []int{5}
-	case 1:
-		prios = []int{-2147483648, -1, 0, 1, 2147483647}
-	case 2:
-		prios = []int{1, 2}
-	}
+	nr := 1 + rng.Intn(6) // number of distinct priorities (1: pure FIFO)
 	pPush := 40 + rng.Intn(35)
 	for i := 0; i < n; i++ {
 		x := rng.Intn(100)
 		switch {
 		case x < pPush:
 			id++
-			out = append(out, qa.Act{Op: "push", V: id, Pr: prios[rng.Intn(len(prios))]})
+			out = append(out, qa.Act{Op: "push", V: id, Pr: 1 + rng.Intn(nr)})
 		case x < 92:
 			out = append(out, qa.Act{Op: "pop"})
 		default:
